@@ -253,6 +253,77 @@ func c39body(c c39cfg) func(x *vsched.Exec) {
 	}
 }
 
+
+// c39slow: two Gets (keys k and k2) start together on client 0, so that both run the client's first keepalive; the
+// loader of k takes 2.5 x ClientTTL; client 1 asks for k after 1.6 x ClientTTL. The holder is alive all the time, so
+// the loader of k must run once and both clients must return its value.
+func c39slow(x *vsched.Exec) {
+	srv := simredis.New()
+	srv.EnableLua()
+	simnet.New(srv)
+	srv.ActiveExpire = true
+	var cas []CacheAsideClient
+	for i := 0; i < 2; i++ {
+		idx := i
+		ca, err := NewClient(ClientOption{
+			ClientBuilder: func(o rueidis.ClientOption) (rueidis.Client, error) {
+				cl := rueidis.NewVerifSimClient(srv, o)
+				cl.StartReader("reader" + strconv.Itoa(idx))
+				return cl, nil
+			},
+			ClientTTL: c39clientTTL,
+		})
+		if err != nil {
+			x.Fail("harness: NewClient failed", "%v", err)
+			return
+		}
+		cas = append(cas, ca)
+	}
+	loads := map[string]int{}
+	type res struct {
+		who, key, val string
+		err           error
+	}
+	var results []res
+	get := func(who string, client int, key string, work time.Duration) {
+		v, err := cas[client].Get(context.Background(), c39ttl, key, func(ctx context.Context, key string) (string, error) {
+			loads[key]++
+			n := loads[key]
+			if work > 0 {
+				time.Sleep(work)
+			}
+			return key + "-v" + strconv.Itoa(n), nil
+		})
+		results = append(results, res{who, key, v, err})
+	}
+	vsched.GoNamed("a.k", func() { get("a.k", 0, "k", 2500*time.Millisecond) })
+	vsched.GoNamed("a.k2", func() { get("a.k2", 0, "k2", 0) })
+	vsched.GoNamed("b.k", func() {
+		time.Sleep(1600 * time.Millisecond)
+		get("b.k", 1, "k", 0)
+	})
+	if x.Run() != vsched.Quiescent {
+		return
+	}
+	out := ""
+	for _, r := range results {
+		out += fmt.Sprintf("%s=%s/%v ", r.who, r.val, r.err)
+		if r.err != nil {
+			x.Fail("Get failed although its client is alive and its loader did not fail", "%s: %v", r.who, r.err)
+		}
+		if strings.HasPrefix(r.val, PlaceholderPrefix) {
+			x.Fail("Get returned the internal lock placeholder", "%s returned %q", r.who, r.val)
+		}
+		if r.key == "k" && r.val != "k-v1" {
+			x.Fail("concurrent Get did not return the single loader's value", "%s returned %q; %s", r.who, r.val, out)
+		}
+	}
+	if loads["k"] != 1 || loads["k2"] != 1 {
+		x.Fail("loader ran more than once for concurrent Gets with a live lock holder", "loader runs %v (the holder of k is alive and still loading when the other client asks); results: %s", loads, out)
+	}
+	x.Outcome = out + fmt.Sprintf("loads=%v", loads)
+}
+
 func c39cfgs() []c39cfg {
 	two := []c39thr{{0, 0}, {1, 0}}
 	return []c39cfg{
@@ -274,7 +345,7 @@ func c39cfgs() []c39cfg {
 
 func TestVerif_C39(t *testing.T) {
 	vrun.Main(t, "C39", func(r *vrun.Run) {
-		r.Rule = "every schedule (preemption/delay/deviation bounded) of 2-3 threads calling Get for one key through real CacheAsideClients over a fake Redis with counting loaders; non-trivial = threads really blocked on each other"
+		r.Rule = "every schedule (preemption/delay/deviation bounded) of 2-3 threads calling Get for one key through real CacheAsideClients over a fake Redis with counting loaders; plus a loader that runs 2.5 x ClientTTL on a client whose first two Gets start together while another client asks for the key after 1.6 x ClientTTL; non-trivial = threads really blocked on each other"
 		r.Assume("simredis models Redis 7 tracking (OPTIN, invalidation on SET/DEL/expiry, self-invalidations after the reply); keys expire exactly on time; SET NX GET as in Redis 7")
 		r.Assume("the fake client delivers invalidation pushes through one reader thread per client; a dead client = its connection is lost for good (Lose) or Close()")
 		r.Assume("a waiting Get has to be woken by the invalidation of the key: without a client death no Get may take virtual time (the periodic refresh of the holder's liveness key would otherwise mask a missed wake-up)")
@@ -285,6 +356,11 @@ func TestVerif_C39(t *testing.T) {
 				cfgs = append(cfgs, c)
 			}
 		}
+		// a long loader on a client whose first two Gets race through its first liveness set-up
+		vexp.Run(r, vexp.Prog{Name: "slow-loader/2gets-on-a|get-on-b", Body: c39slow,
+			Budget: vsched.Budget{MaxPreempt: vrun.Pick(r, 2, 3)}, Delay: 1,
+			Opts:    vsched.Options{Horizon: 20000, MaxVirtual: 60 * time.Second},
+			Seconds: vrun.Pick(r, 15.0, 120.0)})
 		r0, target := r.Remaining(), vrun.Pick(r, 45.0, 840.0)
 		for ci, c := range cfgs {
 			left := target - (r0 - r.Remaining())
